@@ -101,7 +101,16 @@ def build_ops(tmp, rnd):
             fn = obj.generate_plates if name in ("seg", "pair", "perm") else obj.smooth_plates
             return scr_digest(fn(rs.screen(), np.random.default_rng(seed)))
         ops["retro:" + name] = (f, scr_digest(scr0) + repr(params), None)
-    rs = small_screen(rnd.randrange(10 ** 6))
+    # a screen on which the hold-outs and the chunk scorer have a choice to make (at least two unobserved plates of two or more rows)
+    rs = None
+    for attempt in range(60):
+        cand = small_screen(rnd.randrange(10 ** 6)) if attempt < 10 else random_rscreen(random.Random(rnd.randrange(10 ** 6)), 16, 2, 4, p_obs=0.25, single=0.3, one_sample_per_plate=True)
+        rs = rs or cand
+        sc_ = cand.screen()
+        un = [p for p in sc_.plates if not p.is_observed]
+        if len(un) >= 2 and sum(1 for p in un if p.size >= 2) >= 2 and any(p.is_observed for p in sc_.plates):
+            rs = cand
+            break
     cover = R.SparseCoverPlateGenerator(True)
     ops["retro:cover"] = (lambda seed, rs=rs: scr_digest(cover.generate_and_unmask_initial_plate(rs.screen(all_observed=True), np.random.default_rng(seed))),
                           scr_digest(rs.screen()), None)
